@@ -187,6 +187,16 @@ def newMatOid : Rel → Option Nat
   | .select _ _ _ _ _ _ _ _ t => newMatOid t
   | _ => none
 
+/-- The payload of a Materialization being processed: the processed target's own one when that was materialized on
+the way (looked up through payload-less wrappers; may still be `None`), the engine's trivial payload for a statically
+trivial relation, otherwise whatever the `materialize` hook returns. -/
+def matPayload (σ : Leaves) (orig target newTarget : Rel) (name : String) (persisted : Bool) :
+    ProcM (Option AnyPayload) := do
+  if persisted then pure (payloadThrough (← get) newTarget)
+  else if orig.isJoinIdentity then do pure (some (← trivialPayload target.engine true orig.columns))
+  else if orig.maxRows == some 0 then do pure (some (← trivialPayload target.engine false orig.columns))
+  else do pure (some (← hookMaterialize σ newTarget name))
+
 /-- `Processor._process_recursive(original, materialize_as)`. -/
 def processRec (σ : Leaves) : Nat → Rel → Option String → ProcM (Res × Bool)
   | 0, _, _ => throw .fuel
@@ -216,7 +226,11 @@ def processRec (σ : Leaves) : Nat → Rel → Option String → ProcM (Res × B
           match materialize (← get).store defaultFuel newTarget name with
           | .error e => throw e
           | .ok r =>
-            let res ← tempRoot (setMatOid name (← freshTemp) (r.get newTarget))
+            let f ← freshTemp
+            -- only a freshly created Materialization (`r` is new) has to be given its allocation id
+            let res ← tempRoot (match r with
+              | .same => newTarget
+              | .new y => setMatOid name f y)
             pure (Res.new res)
       -- look through engine-specific wrappers for the relation that holds / should receive the payload
       let sNow ← get
@@ -229,11 +243,7 @@ def processRec (σ : Leaves) : Nat → Rel → Option String → ProcM (Res × B
           modify (fun s => s.attach oid p)
           return (.new res, true)
       -- `payload = new_target.payload` looked up through wrappers; may still be `None`
-      let payload : Option AnyPayload ←
-        if persisted then pure (payloadThrough (← get) newTarget)
-        else if orig.isJoinIdentity then do pure (some (← trivialPayload target.engine true orig.columns))
-        else if orig.maxRows == some 0 then do pure (some (← trivialPayload target.engine false orig.columns))
-        else do pure (some (← hookMaterialize σ newTarget name))
+      let payload : Option AnyPayload ← matPayload σ orig target newTarget name persisted
       if let some p := payload then
         modify (fun s => s.attach oid p)
       match result, inner with
